@@ -7,3 +7,4 @@ CONSTANTS
   EmitMode = "none"
   SampleMod = 1
   SamplePick = 0
+  ValidOnly = FALSE
